@@ -24,7 +24,7 @@ VARIABLES l, st, objs, blocks, reloc, viol, stats
 vars == <<l, st, objs, blocks, reloc, viol, stats>>
 
 Stats0 == [ops |-> 0, execs |-> 0, faults |-> 0, hints |-> 0, lookups |-> 0, rangeFree |-> 0, iterOps |-> 0, pristineOps |-> 0,
-           drift |-> 0, driftAt |-> <<>>, prims |-> 0, allocEvents |-> 0, cmps |-> 0, maxLookupCmps |-> 0, maxHintCmps |-> 0, skipped |-> 0, nullDealloc |-> 0]
+           drift |-> 0, driftAt |-> <<>>, prims |-> 0, allocEvents |-> 0, cmps |-> 0, maxLookupCmps |-> 0, maxHintCmps |-> 0, skipped |-> 0, nullDealloc |-> 0, constOps |-> 0]
 
 TInit == /\ l = 2
          /\ st = SInit
@@ -178,13 +178,21 @@ TOp ==
            ELSE IF SFlav[c] = "small" /\ x.pri /\ lb.op \in SLookups \cup SLookupsK /\ ev.cmps > 2 * SN[c] + 2
                 THEN "more than 2N+2 comparator calls for a lookup in an inline SmallSet"
            ELSE ""
+         \* ---- C20 (a): const operations leave the representation of the set they read unchanged
+         ConstOps == SLookups \cup SLookupsK \cup {"iterate", "eq", "ne", "lt", "le", "gt", "ge", "ctorCopy"}
+         c20Fail ==
+           IF "h0" \notin DOMAIN ev THEN ""
+           ELSE IF (lb.op \in ConstOps \/ (lb.op = "assignCopy" /\ lb.c # lb.d)) /\ ~faulted /\ ev.h0 # ev.h1
+                THEN "a const operation changed the representation of the set it reads"
+           ELSE ""
          v0 == IF shapeFail # "" THEN AddViol(viol, (IF faulted THEN {"C09"} ELSE {}) \cup UNION {flavOwner(y) : y \in parts}, l, shapeFail) ELSE viol
          v1 == IF valueFail # "" /\ shapeFail = "" THEN AddViol(v0, owner, l, valueFail) ELSE v0
          v2 == IF c02Fail # "" THEN AddViol(v1, {"C02"} \cup (IF faulted THEN {"C09"} ELSE {}) \cup
                                             (IF \E y \in parts : reloc[y] THEN {"C14"} ELSE {}), l, c02Fail) ELSE v1
          v3 == IF c06Fail # "" THEN AddViol(v2, {"C06"} \cup (IF faulted THEN {"C09"} ELSE {}), l, c06Fail) ELSE v2
          v4 == IF c05Fail # "" THEN AddViol(v3, {"C05"}, l, c05Fail) ELSE v3
-         v5 == IF c19Fail # "" THEN AddViol(v4, {"C19"}, l, c19Fail) ELSE v4
+         v5a == IF c19Fail # "" THEN AddViol(v4, {"C19"}, l, c19Fail) ELSE v4
+         v5 == IF c20Fail # "" THEN AddViol(v5a, {"C20"}, l, c20Fail) ELSE v5a
          \* ---- design drift (diagnostic): the iteration order of an inline SmallSet differs from the design's prediction
          drift == ~faulted /\ valueFail = "" /\ \E y \in exs : SFlav[y] = "small" /\ exp.st.s[y].ex /\ obs[y].elems # exp.st.s[y].elems
          \* ---- next state: adopt the observation (elements in canonical order), keep the contract's ghosts
@@ -217,7 +225,8 @@ TOp ==
                                !.cmps = @ + ev.cmps,
                                !.maxLookupCmps = IF lb.op \in LookupOps /\ SFlav[c] = "flat" /\ ev.cmps > @ THEN ev.cmps ELSE @,
                                !.maxHintCmps = IF correctHint /\ SFlav[c] = "flat" /\ ev.cmps > @ THEN ev.cmps ELSE @,
-                               !.nullDealloc = @ + B2.nullDealloc]
+                               !.nullDealloc = @ + B2.nullDealloc,
+                               !.constOps = @ + (IF "h0" \in DOMAIN ev /\ lb.op \in ConstOps \cup {"assignCopy"} THEN 1 ELSE 0)]
      /\ l' = l + 1
 
 TReset ==
